@@ -51,7 +51,7 @@ def build_harness():
     env["CARGO_NET_OFFLINE"] = "true"
     lock = os.path.join(HARNESS, "Cargo.lock")
     if not os.path.exists(lock):
-        shutil.copy("/repo/Cargo.lock", lock)
+        shutil.copy(os.path.join(os.environ.get("KOLIBRIE_REPO", "/repo"), "Cargo.lock"), lock)
     # serialise concurrent builds (several checks may be started at once)
     import fcntl
     os.makedirs(WORK, exist_ok=True)
